@@ -13,6 +13,8 @@ EXPLANATION = ('Accessor.__getitem__/__len__ and SliceAccessor.__getitem__ (real
                'IndexError iff outside [-n, n). For line-number accessors (iline, xline), ascending and descending axes with any non-zero '
                'increment: every combination of bounds/step given or omitted (bounds existing line numbers, steps multiples of the increment): '
                'same lines in the same order as segyio; iline[n] rejected iff n is not a line number.')
+# 'samples equal to the SGZ's decoded volume': the accessors delegate to the read methods of the C02 set
+INCLUDES = ('C02',)
 ASSUMPTIONS = [
     'AX-SEGYIO-ACC: the transcription of segyio.line.sanitize_slice / Line.ranges (hash of the installed file pinned; a changed hash makes the check exit 3)',
     'values_function abstracted: VF(n) = item n / IndexError iff n not on the axis (established by the C02/C14 contracts of the read methods)',
